@@ -42,7 +42,8 @@ Record params := {
   (* MEASURED on the current code by replaying the witness in a sanitized child process (tools/gen/dump_rtfix.c): does
      dyn_array_push_struct survive a source pointer into the array's own block when it has to grow
      (proposed_fixes/C20-push-own-struct-elem.diff).  false on the pinned tree: the model follows the code present. *)
-  p_push_self_safe : bool
+  p_push_self_safe : bool;
+  p_struct_oob_aborts : bool      (* get_struct / set_struct outside [0, length): assert like the other accessors (true) or message + NULL / store dropped (false); measured *)
 }.
 
 Record dyn := {
@@ -287,13 +288,13 @@ Definition step (P : params) (s : dyn) (o : op) : res :=
   | PushStruct bs => push_struct P s bs
   | GetStruct i =>
       if negb (ekind_eqb (d_kind s) EStruct) then RAbort else
-      if negb (in_range i (d_len s)) then ROk s ONull else
+      if negb (in_range i (d_len s)) then (if p_struct_oob_aborts P then RAbort else ROk s ONull) else
       (* returns data + index*elem_size; the probe/caller reads elem_size bytes there *)
       match rd (d_data s) (Z.to_nat i) with Some c => ROk s (OCell c) | None => RCrash end
   | SetStruct i bs =>
       if negb (ekind_eqb (d_kind s) EStruct) then RAbort else
       if negb (N.eqb (d_esize s) (N.of_nat (length bs))) then RAbort else
-      if negb (in_range i (d_len s)) then ROk s OUnit else
+      if negb (in_range i (d_len s)) then (if p_struct_oob_aborts P then RAbort else ROk s OUnit) else
       match wr (d_data s) (Z.to_nat i) (Blob bs) with Some els => ROk (set_data s els) OUnit | None => RCrash end
   | PopStruct size =>
       if negb (ekind_eqb (d_kind s) EStruct) then RAbort else
@@ -318,7 +319,7 @@ Definition step (P : params) (s : dyn) (o : op) : res :=
   | SetStructElem i j =>
       if negb (ekind_eqb (d_kind s) EStruct) then RAbort else
       if negb (in_range j (d_len s)) then RAbort else                   (* source NULL -> assert *)
-      if negb (in_range i (d_len s)) then ROk s OUnit else              (* "Index out of bounds" message, nothing written *)
+      if negb (in_range i (d_len s)) then (if p_struct_oob_aborts P then RAbort else ROk s OUnit) else   (* assert, or "Index out of bounds" message and nothing written *)
       match rd (d_data s) (Z.to_nat j) with
       | Some c => match wr (d_data s) (Z.to_nat i) c with Some els => ROk (set_data s els) OUnit | None => RCrash end
       | None => RCrash
@@ -413,11 +414,11 @@ Definition lstep (P : params) (s : lst) (o : op) : lres :=
       LOk {| l_kind := EStruct; l_esize := size; l_items := l_items s ++ [Blob bs] |} OUnit
   | GetStruct i =>
       if negb (ekind_eqb (l_kind s) EStruct) then LAbort else
-      if negb (in_range i (length (l_items s))) then LOk s ONull else LOk s (OCell (nth (Z.to_nat i) (l_items s) Uninit))
+      if negb (in_range i (length (l_items s))) then (if p_struct_oob_aborts P then LAbort else LOk s ONull) else LOk s (OCell (nth (Z.to_nat i) (l_items s) Uninit))
   | SetStruct i bs =>
       if negb (ekind_eqb (l_kind s) EStruct) then LAbort else
       if negb (N.eqb (l_esize s) (N.of_nat (length bs))) then LAbort else
-      if negb (in_range i (length (l_items s))) then LOk s OUnit else
+      if negb (in_range i (length (l_items s))) then (if p_struct_oob_aborts P then LAbort else LOk s OUnit) else
       LOk (with_items s (lupd (l_items s) (Z.to_nat i) (Blob bs))) OUnit
   | PopStruct size =>
       if negb (ekind_eqb (l_kind s) EStruct) then LAbort else
@@ -434,7 +435,7 @@ Definition lstep (P : params) (s : lst) (o : op) : lres :=
   | SetStructElem i j =>
       if negb (ekind_eqb (l_kind s) EStruct) then LAbort else
       if negb (in_range j (length (l_items s))) then LAbort else
-      if negb (in_range i (length (l_items s))) then LOk s OUnit else
+      if negb (in_range i (length (l_items s))) then (if p_struct_oob_aborts P then LAbort else LOk s OUnit) else
       LOk (with_items s (lupd (l_items s) (Z.to_nat i) (nth (Z.to_nat j) (l_items s) Uninit))) OUnit
   end.
 
